@@ -58,7 +58,7 @@ type Result struct {
 // the moment a context ends "during" the call: late enough that a large envelope has been
 // encoded and the writer is parked in the socket write
 func during(c Cfg) time.Duration {
-	if (c.Op == "send" || c.Op == "chsend") && c.Tr != "inproc" {
+	if (c.Op == "send" || strings.HasPrefix(c.Op, "chsend")) && c.Tr != "inproc" {
 		return 1500 * time.Millisecond
 	}
 	return 200 * time.Millisecond
@@ -180,8 +180,17 @@ func limeServer(tr string, buffer int, blockHandlers chan struct{}) (dial func(c
 		<-blockHandlers // a consumer that never gets on with it
 		return nil
 	})
+	mux.NotificationHandlerFunc(nil, func(ctx context.Context, m *lime.Notification) error {
+		<-blockHandlers
+		return nil
+	})
 	mux.RequestCommandHandlerFunc(nil, func(ctx context.Context, m *lime.RequestCommand, s lime.Sender) error {
-		return nil // never answers
+		<-blockHandlers // never answers
+		return nil
+	})
+	mux.ResponseCommandHandlerFunc(nil, func(ctx context.Context, m *lime.ResponseCommand, s lime.Sender) error {
+		<-blockHandlers
+		return nil
 	})
 	for try := 0; try < 40; try++ {
 		var bl lime.BoundListener
@@ -193,6 +202,12 @@ func limeServer(tr string, buffer int, blockHandlers chan struct{}) (dial func(c
 				inprocMu.Lock()
 				defer inprocMu.Unlock()
 				return lime.DialInProcess(ia, 0)
+			}
+		case "ws":
+			addr := nextAddr()
+			bl = lime.NewBoundListener(lime.NewWebsocketTransportListener(&lime.WebsocketConfig{}), addr)
+			dial = func(ctx context.Context) (lime.Transport, error) {
+				return lime.DialWebsocket(ctx, "ws://"+addr.String()+"/", nil, nil)
 			}
 		default:
 			addr := nextAddr()
@@ -243,8 +258,123 @@ func established(tr string, buffer int, blockHandlers chan struct{}) (*lime.Clie
 	return cc, stop, nil
 }
 
+// pair connects a client transport and a server transport of the given kind through the library's
+// own listener (ws, inproc).
+func pair(tr string) (lime.Transport, lime.Transport, func(), error) {
+	bg := context.Background()
+	var lis lime.TransportListener
+	var dial func() (lime.Transport, error)
+	var err error
+	switch tr {
+	case "ws":
+		for try := 0; try < 40; try++ {
+			addr := nextAddr()
+			lis = lime.NewWebsocketTransportListener(&lime.WebsocketConfig{})
+			if err = lis.Listen(bg, addr); err == nil {
+				dial = func() (lime.Transport, error) {
+					return lime.DialWebsocket(bg, "ws://"+addr.String()+"/", nil, nil)
+				}
+				break
+			}
+		}
+	default:
+		ia := lime.InProcessAddr(fmt.Sprintf("blockd-%d", atomic.AddInt32(&inprocN, 1)))
+		lis = lime.NewInProcessTransportListener(ia)
+		inprocMu.Lock()
+		err = lis.Listen(bg, ia)
+		inprocMu.Unlock()
+		dial = func() (lime.Transport, error) {
+			inprocMu.Lock()
+			defer inprocMu.Unlock()
+			return lime.DialInProcess(ia, 1)
+		}
+	}
+	if err != nil {
+		return nil, nil, nil, err
+	}
+	stop := func() { inprocMu.Lock(); lis.Close(); inprocMu.Unlock() }
+	var ct lime.Transport
+	for i := 0; i < 100; i++ {
+		if ct, err = dial(); err == nil {
+			break
+		}
+		time.Sleep(5 * time.Millisecond)
+	}
+	if err != nil {
+		stop()
+		return nil, nil, nil, err
+	}
+	actx, acancel := context.WithTimeout(bg, 3*time.Second)
+	st, err := lis.Accept(actx)
+	acancel()
+	if err != nil {
+		stop()
+		return nil, nil, nil, err
+	}
+	return ct, st, func() { runtime.KeepAlive(ct); runtime.KeepAlive(st); stop() }, nil
+}
+
+func serverEstablish(sc *lime.ServerChannel) func(context.Context) error {
+	return func(ctx context.Context) error {
+		return sc.EstablishSession(ctx, []lime.SessionCompression{lime.SessionCompressionNone},
+			[]lime.SessionEncryption{lime.SessionEncryptionNone, lime.SessionEncryptionTLS},
+			[]lime.AuthenticationScheme{lime.AuthenticationSchemeGuest},
+			func(context.Context, lime.Identity, lime.Authentication) (*lime.AuthenticationResult, error) {
+				return lime.MemberAuthenticationResult(), nil
+			},
+			func(ctx context.Context, n lime.Node, c *lime.ServerChannel) (lime.Node, error) { return n, nil })
+	}
+}
+
+func clientEstablish(cc *lime.ClientChannel) func(context.Context) error {
+	return func(ctx context.Context) error {
+		_, e := cc.EstablishSession(ctx, lime.NoneCompressionSelector, func(o []lime.SessionEncryption) lime.SessionEncryption { return o[0] },
+			lime.Identity{Name: "cli", Domain: "example.com"}, guest, "i")
+		return e
+	}
+}
+
+// libraryPeers: session operations over ws / in-process between two library channels, the
+// peer of the operation under test staying idle
+func libraryPeers(c Cfg) (*setup, error) {
+	ct, st, stop, err := pair(c.Tr)
+	if err != nil {
+		return nil, err
+	}
+	cc := lime.NewClientChannel(ct, 1)
+	sc := lime.NewServerChannel(st, 1, srvNode, "5e551041-0000-4000-8000-0000000000c5")
+	switch c.Op {
+	case "estc": // the server side never answers
+		return &setup{run: clientEstablish(cc), cleanup: stop}, nil
+	case "ests": // the client side never speaks
+		return &setup{run: serverEstablish(sc), cleanup: stop}, nil
+	}
+	ectx, ecancel := context.WithTimeout(context.Background(), 3*time.Second)
+	defer ecancel()
+	errc := make(chan error, 1)
+	go func() { errc <- serverEstablish(sc)(ectx) }()
+	if err := clientEstablish(cc)(ectx); err != nil {
+		stop()
+		return nil, fmt.Errorf("client establish: %v", err)
+	}
+	if err := <-errc; err != nil || !sc.Established() {
+		stop()
+		return nil, fmt.Errorf("server establish: %v", err)
+	}
+	if c.Op == "finishc" { // nobody answers 'finishing'
+		return &setup{run: func(ctx context.Context) error { _, e := cc.FinishSession(ctx); return e }, cleanup: stop}, nil
+	}
+	return &setup{run: endSession(sc, c.Op), cleanup: stop}, nil
+}
+
 func prepare(c Cfg) (*setup, error) {
 	bg := context.Background()
+	switch c.Op {
+	case "estc", "ests", "finishc", "finishs", "fails":
+		if c.Tr == "ws" || (c.Tr == "inproc" && c.Op != "finishs" && c.Op != "fails") {
+			return libraryPeers(c)
+		}
+	}
 	switch c.Op {
 	case "send", "receive":
 		switch c.Tr {
@@ -343,7 +473,7 @@ func prepare(c Cfg) (*setup, error) {
 		}
 		return &setup{run: func(ctx context.Context) error { _, e := lis.Accept(ctx); return e },
 			cleanup: func() { inprocMu.Lock(); lis.Close(); inprocMu.Unlock() }}, nil
-	case "chsend", "pcmd":
+	case "chsend", "chsendnot", "chsendreq", "chsendresp", "pcmd":
 		block := make(chan struct{})
 		cc, stop, err := established(c.Tr, 0, block)
 		if err != nil {
@@ -357,23 +487,50 @@ func prepare(c Cfg) (*setup, error) {
 			req.SetURIString("/ping")
 			return &setup{run: func(ctx context.Context) error { _, e := cc.ProcessCommand(ctx, req); return e }, cleanup: cleanup}, nil
 		}
+		n := 0
+		send := func(ctx context.Context, big bool) error {
+			n++
+			body := "x"
+			if big {
+				body = strings.Repeat("x", 12<<20)
+			}
+			env := lime.Envelope{ID: fmt.Sprintf("e%d", n)}
+			switch c.Op {
+			case "chsendnot":
+				env.Metadata = map[string]string{"body": body}
+				return cc.SendNotification(ctx, &lime.Notification{Envelope: env, Event: lime.NotificationEventReceived})
+			case "chsendreq":
+				r := &lime.RequestCommand{}
+				r.Envelope = env
+				r.Method = lime.CommandMethodSet
+				r.SetURIString("/r")
+				r.SetResource(lime.TextDocument(body))
+				return cc.SendRequestCommand(ctx, r)
+			case "chsendresp":
+				r := &lime.ResponseCommand{}
+				r.Envelope = env
+				r.Method = lime.CommandMethodSet
+				r.Status = lime.CommandStatusSuccess
+				r.SetResource(lime.TextDocument(body))
+				return cc.SendResponseCommand(ctx, r)
+			}
+			m := &lime.Message{Envelope: env}
+			m.SetContent(lime.TextDocument(body))
+			return cc.SendMessage(ctx, m)
+		}
 		if c.Tr == "inproc" {
-			// the consumer is stuck in its first handler: the second and third envelopes fill the way
+			// the consumer is stuck in its first handler: the next envelopes fill the way
 			pre, pcancel := context.WithTimeout(bg, 300*time.Millisecond)
 			for i := 0; i < 4; i++ {
-				m := &lime.Message{}
-				m.SetContent(lime.TextDocument("x"))
-				_ = cc.SendMessage(pre, m)
+				_ = send(pre, false)
 			}
 			pcancel()
-			m := &lime.Message{}
-			m.SetContent(lime.TextDocument("x"))
-			return &setup{run: func(ctx context.Context) error { return cc.SendMessage(ctx, m) }, cleanup: cleanup}, nil
+			return &setup{run: func(ctx context.Context) error { return send(ctx, false) }, cleanup: cleanup}, nil
 		}
 		// the consumer is stuck in its first handler and the receiver behind it: nothing is read any more
 		pre, pcancel := context.WithTimeout(bg, 2*time.Second)
 		for i := 0; i < 3; i++ {
-			if err := cc.SendMessage(pre, smallMessage()); err != nil {
+			if err := send(pre, false); err != nil {
 				pcancel()
 				cleanup()
 				return nil, err
@@ -381,7 +538,7 @@ func prepare(c Cfg) (*setup, error) {
 		}
 		pcancel()
 		time.Sleep(50 * time.Millisecond)
-		return &setup{run: func(ctx context.Context) error { return cc.SendMessage(ctx, payload(c)) }, cleanup: cleanup}, nil
+		return &setup{run: func(ctx context.Context) error { return send(ctx, c.EndAt == 1) }, cleanup: cleanup}, nil
 	case "estc", "esttlsc", "finishc":
 		script := silent
 		if c.Op == "esttlsc" {
